@@ -112,6 +112,13 @@ fn cells(tier: &str) -> Vec<Value> {
             id += 1;
         }
     }
+    // time-outs so short that they have run out before the request is even on the wire
+    for ms in [0u64, 1, 2] {
+        for clones in [1usize, 40] {
+            v.push(json!({"cell": id, "family": "tiny-timeout", "calls": clones, "timeout_ms": ms}));
+            id += 1;
+        }
+    }
     // a handle that has already been used is cloned; original and clone then have requests in
     // flight together (whatever a handle carries besides the shared stream is copied by clone())
     for prior in [1usize, 2, 15, 16, 17] {
@@ -391,6 +398,46 @@ async fn cell_inner(addr: SocketAddr, set: Arc<CertSet>, topic: String, c: Value
         tag = if reopen { "late-replies-ignored-after-reopen" } else { "late-replies-ignored" };
     }
     Ok(tag.into())
+}
+
+/// A replier that never answers and a time-out of 0-2 ms: every call must fail with the time-out
+/// error (it may not panic, hang, or return anything else), also when many clones call at once.
+async fn tiny_timeout_cell(addr: SocketAddr, set: Arc<CertSet>, topic: String, c: Value) -> Result<String, Fail> {
+    let ms = c["timeout_ms"].as_u64().unwrap();
+    let clones = c["calls"].as_u64().unwrap() as usize;
+    let class = format!("tiny-timeout:{ms}ms");
+    let setup = |what: &str, e: String| fail("setup", what, format!("{what}: {e}"));
+    let raw = RawConn::connect(addr, &set.ca, Some(&set.client)).await.map_err(|e| setup("raw connect", e.to_string()))?;
+    let tn = TopicName::try_from(topic.as_str()).map_err(|e| setup("topic", e.to_string()))?;
+    let (_rs, first) = raw.register(Frame::RegisterReplier(ReplierPayload { topic: tn })).await.map_err(|e| setup("register replier", e.to_string()))?;
+    if first != Some(Frame::Ok) {
+        return Err(setup("register replier", format!("answered {first:?}")));
+    }
+    let client = net::default_client(addr, &set).await.map_err(|e| setup("client connect", e.to_string()))?;
+    let req = client
+        .requestor(&topic)
+        .with_request_encoder(StringCodec)
+        .with_reply_decoder(StringCodec)
+        .with_request_timeout(Duration::from_millis(ms))
+        .map_err(|e| setup("timeout config", e.to_string()))?
+        .open()
+        .await
+        .map_err(|e| fail("open-error", &class, format!("requestor open failed: {e}")))?;
+    let mut handles = Vec::new();
+    for i in 0..clones {
+        let mut r = req.clone();
+        handles.push(tokio::spawn(async move { r.request(format!("never-answered-{i}")).await }));
+    }
+    for (i, h) in handles.into_iter().enumerate() {
+        match tokio::time::timeout(Duration::from_secs(15), h).await {
+            Err(_) => return Err(fail("hang", &class, format!("call {i} with a {ms} ms time-out had not returned after 15 s"))),
+            Ok(Err(e)) if e.is_panic() => return Err(fail("client-panicked", &class, format!("request() with a {ms} ms time-out panicked instead of reporting the time-out ({clones} concurrent calls): {e}"))),
+            Ok(Err(e)) => return Err(setup("task", e.to_string())),
+            Ok(Ok(Err(SeliumError::RequestTimeout))) => {}
+            Ok(Ok(other)) => return Err(fail("timeout-not-reported", &class, format!("call {i} with a {ms} ms time-out and no reply returned {other:?} instead of the time-out error"))),
+        }
+    }
+    Ok("timed-out".into())
 }
 
 /// `prior` requests on a fresh handle (answered at once), then the handle is cloned (once or
@@ -963,6 +1010,9 @@ pub async fn run(tier: &str, replaying: bool) -> ! {
         async move {
             let topic = format!("/c04ns/t{}x{}", c["cell"], salt.fetch_add(1, Ordering::SeqCst));
             let nontrivial = c["calls"].as_u64().unwrap() >= 2;
+            if c["family"].as_str() == Some("tiny-timeout") {
+                return (true, tiny_timeout_cell(addr, set.clone(), topic.clone(), c.clone()).await);
+            }
             if c["family"].as_str() == Some("used-handle-cloned") {
                 return (true, used_clone_cell(addr, set.clone(), topic.clone(), c.clone()).await);
             }
